@@ -136,6 +136,14 @@ example : dump W0 DW0 ⟨.first, true⟩ 5 dictTy dictVal =
     Val.hashable, Val.dictSet, Val.pyEq, dumpIter, Val.iterElems, idxItemsD, dumpUnion, isNoneTyD,
     dumpUnion.general, literalVals, dumpUnion.byClass, dispatchTable, dispatchCase, DW0, Val.tag, W0]
 
+/-- a union whose non-overlap follows from the outer forms under strict coercion
+    (`Lemmas/MorphRTCriteria.lean`: `rt_reject_*`, `rt_dump_*_shape`) -/
+example (t : DebugTrail) {x : Val} (hx : HasTy W0 C0 listOrTree x) :
+    ∃ n d, ∀ m, n ≤ m → dump W0 DW0 ⟨t, true⟩ m listOrTree x = .ok d ∧
+      ∃ x', load W0 ⟨t, true⟩ m listOrTree d = .ok x' ∧ Val.same x' x = true :=
+  roundtrip_total scalarRT0 ⟨classesOK0 _ false, listOrTree_ok t false⟩ hx
+
+/-- a string-dumped scalar (`Decimal` as an atom with its canonical text) in a tuple and a list -/
 example (cfg : Cfg) (t : String) (is : List Int) :
     ∃ n d, ∀ m, n ≤ m →
       dump W0 DW0 cfg m decTy (.tuple [.atom "Decimal" t, .list (is.map .int)]) = .ok d ∧
